@@ -142,6 +142,17 @@ func runNative(dir string, progs []*program) (*nativeBatch, error) {
 	if err := copyTree(filepath.Join(repoDir(), "pkg/compiler/testdata/inline"), filepath.Join(stub, "pkg/compiler/testdata/inline")); err != nil {
 		return nil, err
 	}
+	// Go equivalents of the opcode wrappers of pkg/interop/math and util, on
+	// the argument domains the generator keeps to
+	for name, src := range map[string]string{"math/math.go": nativeMath, "util/util.go": nativeUtil} {
+		f := filepath.Join(stub, "pkg/interop", name)
+		if err := os.MkdirAll(filepath.Dir(f), 0o755); err != nil {
+			return nil, err
+		}
+		if err := os.WriteFile(f, []byte(src), 0o644); err != nil {
+			return nil, err
+		}
+	}
 	for _, p := range progs {
 		d := filepath.Join(dir, p.pkg)
 		if err := os.MkdirAll(d, 0o755); err != nil {
@@ -264,3 +275,65 @@ func tail(s string, n int) string {
 	}
 	return s
 }
+
+const nativeMath = `package math
+
+func Abs(a int) int {
+	if a < 0 {
+		return -a
+	}
+	return a
+}
+
+func Sign(a int) int {
+	switch {
+	case a < 0:
+		return -1
+	case a > 0:
+		return 1
+	}
+	return 0
+}
+
+func Pow(a, b int) int {
+	if b < 0 {
+		panic("invalid exponent")
+	}
+	r := 1
+	for ; b > 0; b-- {
+		r *= a
+	}
+	return r
+}
+
+func Sqrt(x int) int {
+	if x < 0 {
+		panic("negative value")
+	}
+	r := 0
+	for (r+1)*(r+1) <= x {
+		r++
+	}
+	return r
+}
+
+func Within(x, a, b int) bool { return a <= x && x < b }
+
+func ModMul(a, b, mod int) int { return a * b % mod }
+
+func ModPow(a, b, mod int) int {
+	if b < 0 || a < 0 || mod <= 0 {
+		panic("outside the generated domain")
+	}
+	r := 1 % mod
+	for ; b > 0; b-- {
+		r = r * (a % mod) % mod
+	}
+	return r
+}
+`
+
+const nativeUtil = `package util
+
+func Equals(a, b any) bool { return a == b }
+`
